@@ -151,3 +151,26 @@ let family (ps : psnap) (e : Model.edge) : int list option =
     Some (List.sort_uniq compare
             (List.map (fun s -> List.fold_left (fun acc lv -> acc lor (1 lsl ps.l2v.(int_of_nat lv))) 0 s) l))
 
+
+(* ---- MTBDD (I64 terminals): value codes <-> extracted i64v ---------------- *)
+let mt_string_of_code (c : int) : string =
+  let r = ref "?" in
+  Hashtbl.iter (fun k v -> if v = c then r := k) mt_codes;
+  !r
+
+let i64v_of_string (s : string) : Model.i64v =
+  match s with
+  | "nan" -> Model.INaN
+  | "+inf" -> Model.IPlusInf
+  | "-inf" -> Model.IMinusInf
+  | _ -> Model.INum (mz_of_string s)
+
+let string_of_i64v (v : Model.i64v) : string =
+  match v with
+  | Model.INaN -> "nan"
+  | Model.IPlusInf -> "+inf"
+  | Model.IMinusInf -> "-inf"
+  | Model.INum z -> string_of_mz z
+
+let mt_val (c : int) : Model.i64v = i64v_of_string (mt_string_of_code c)
+let mt_code (v : Model.i64v) : int = term_code "mtbdd" (string_of_i64v v)
